@@ -32,7 +32,7 @@ ASSUMPTIONS = ["'no writes' is judged by: database file bytes identical, connect
 
 def budget(tier):
     if tier == "quick":
-        return {"runs": 2400, "wall": 50, "chunk": 8}
+        return {"runs": 2400, "wall": 120, "chunk": 8}
     return {"runs": 80000, "wall": 1500, "chunk": 8}
 
 
